@@ -138,13 +138,18 @@ void posts_commodities_iterator::reset(journal_t& journal)
 {
   journal_posts.reset(journal);
 
-  std::set<commodity_t *> commodities;
+  // Kept in order of first appearance: a set of pointers would be walked in
+  // heap address order.
+  std::vector<commodity_t *> commodities;
 
   while (const post_t * post = *journal_posts++) {
     commodity_t& comm(post->amount.commodity());
     if (comm.flags() & COMMODITY_NOMARKET)
       continue;
-    commodities.insert(&comm.referent());
+    commodity_t * referent = &comm.referent();
+    if (std::find(commodities.begin(), commodities.end(), referent) ==
+        commodities.end())
+      commodities.push_back(referent);
   }
 
   foreach (commodity_t * comm, commodities)
